@@ -716,10 +716,13 @@ package fsutil
 //@   property C09
 //@   requires fs != nil
 //@   requires skipdir_is_an_error: filepath.SkipDir != nil
-//@   effects WalkFn CtxErr
+//@   effects WalkFn WalkFnRes CtxErr
 //@   ensures root_skipped: filepath.Rel#1(fs.root, path) == nil && filepath.Rel(fs.root, path) == "." ==> cnt(WalkFn) == old(cnt(WalkFn)) && retErr == nil
 //@   ensures atmost: cnt(WalkFn) <= old(cnt(WalkFn)) + 1
 //@   ensures relpath: cnt(WalkFn) > old(cnt(WalkFn)) ==> arg(WalkFn, 0) == filepath.Rel(fs.root, path) && arg(WalkFn, 0) != "." && arg(WalkFn, 2) == walkErr && (dirEntry == nil) == (arg(WalkFn, 1) == nil)
+// the rest of a directory is skipped (SkipDir for a non-directory) only when the callback itself
+// asked for it: an entry that merely vanished is skipped alone (it was not: found and repaired, F16)
+//@   ensures vanished_entry_skipped_alone: retErr == filepath.SkipDir && filepath.Rel#1(fs.root, path) == nil && dirEntry != nil && !dirEntry.IsDir() ==> cnt(WalkFnRes) > old(cnt(WalkFnRes)) && arg(WalkFnRes, 0) == filepath.SkipDir
 // every other entry is forwarded exactly once unless the context is done (a vanished
 // non-directory is forwarded too: the callback is what notices that it is gone)
 //@   ensures forwarded: retErr == nil && filepath.Rel#1(fs.root, path) == nil && !(filepath.Rel(fs.root, path) == ".") ==> cnt(WalkFn) == old(cnt(WalkFn)) + 1 || cnt(CtxErr) > old(cnt(CtxErr))
